@@ -83,12 +83,29 @@ def st_int_key_join(draw):
     return {'A': A, 'B': B, 'a_names': None, 'b_names': None, 'q': q}
 
 
+@st.composite
+def st_mixed_numeric_key_join(draw):
+    """Key cells that are equal as values but differ in type (2 / 2.0 / True / 1): key equality is value equality, alone and inside a composite key."""
+    nums = [0, 0.0, 1, 1.0, True, False, 2, 2.0, 3, 2.5]
+    A = [[draw(st.sampled_from(nums)), draw(st.sampled_from(['p', 'q']))] for _ in range(draw(st.integers(1, 5)))]
+    B = [[draw(st.sampled_from(nums)), draw(st.sampled_from(['p', 'q'])), 'j%d' % i] for i in range(draw(st.integers(1, 5)))]
+    pairs = [{'l': {'f': {'py': 'a1', 'js': 'a1', 'idx': 0}}, 'r': {'f': {'py': 'b1', 'js': 'b1', 'idx': 0}}, 'eq': '==', 'swap': draw(st.booleans())}]
+    k = draw(st.integers(0, 2))
+    if k >= 1:
+        pairs.append({'l': {'f': {'py': 'a2', 'js': 'a2', 'idx': 1}}, 'r': {'f': {'py': 'b2', 'js': 'b2', 'idx': 1}}, 'eq': '==', 'swap': False})
+    if k == 2:
+        pairs.insert(0, {'l': {'f': {'py': 'a1', 'js': 'a1', 'idx': 0}}, 'r': {'f': {'py': 'b1', 'js': 'b1', 'idx': 0}}, 'eq': '==', 'swap': False})
+    join = {'kind': draw(st.sampled_from(['JOIN', 'INNER JOIN', 'LEFT JOIN', 'LEFT OUTER JOIN'])), 'pairs': pairs, 'table': 'b', 'and': 'and'}
+    items = [{'k': 'expr', 'e': {'py': 'NR', 'js': 'NR', 'name': {'id': 'NR'}, 'ty': 'int'}}, {'k': 'expr', 'e': {'py': 'bNR', 'js': 'bNR', 'name': {'id': 'bNR'}, 'ty': 'int'}}, {'k': 'expr', 'e': {'py': 'b3', 'js': 'b3', 'name': {'f': ['b', 2]}, 'ty': 'any'}}]
+    return {'A': A, 'B': B, 'a_names': None, 'b_names': None, 'q': {'type': 'select', 'items': items, 'join': join}}
+
+
 def strategy():
     sel = qgen.st_case_select(force_join=True, order=True, distinct=True, top=True, where_p=3, except_p=0, dup_heavy=True, max_rows=6, max_width=3)
     plain = qgen.st_case_select(force_join=True, order=False, distinct=False, top=False, where_p=3, except_p=0, dup_heavy=True, max_rows=6, max_width=3)
     upd = qgen.st_case_update(join_p=1, multi_match=True)
     upd1 = qgen.st_case_update(join_p=1, multi_match=False)
-    return st.one_of(plain, plain, sel, sel, st_agg_join(), upd, upd1, st_int_key_join())
+    return st.one_of(plain, plain, sel, sel, st_agg_join(), upd, upd1, st_int_key_join(), st_mixed_numeric_key_join())
 
 
 def check_case(case, stats=None):
